@@ -123,7 +123,8 @@ def run_check(prop, tier, seed):
             if code is None:
                 # disagreement found by TLC's own enumeration: the failed demands are determined by
                 # re-executing the point through the trace specification
-                new, codes = vf.replay_events(harness, evs, scratch, module=plan.get('trace_module', 'Trace'))
+                new, codes = vf.replay_events(harness, evs, scratch, module=plan.get('trace_module', 'Trace'), any_event=True)
+                codes = sorted(set(codes))
                 if not codes:
                     raise vf.HarnessError('graph disagreement at %s is not reproduced by the trace specification' % note)
                 for c in codes:
@@ -142,7 +143,8 @@ def run_check(prop, tier, seed):
             # re-execute in isolation (bounded: a few per demand code, all get classified)
             cnt = replayed_codes.get(code, 0)
             if cnt < 3:
-                new, codes = vf.replay_events(harness, evs, scratch, module=plan.get('trace_module', 'Trace'))
+                new, codes = vf.replay_events(harness, evs, scratch, module=plan.get('trace_module', 'Trace'),
+                                              any_event=note.startswith('graph point'))
                 replayed_codes[code] = cnt + 1
                 if code not in codes:
                     raise vf.HarnessError('mismatch %s at %s did not reproduce in isolation (codes now %s); '
